@@ -298,4 +298,155 @@ theorem parseStep_coverAll (hw : WFI off w ts) (hz : Boundary off w 0) (h : GE (
   rintro _ s2 ⟨g2, c2⟩
   exact Sat.pushEv ⟨g2.push (g2.evs.push _), c2⟩
 
+/-! ### plumbing: conjunction of two facts about one run, and "the character tables are kept" -/
+
+theorem Sat.and {β : Type} {m : P α β} {s : BP α} {Q Q' : β → BP α → Prop} (h : Sat m s Q) (h' : Sat m s Q') :
+    Sat m s (fun r s' => Q r s' ∧ Q' r s') := ⟨h, h'⟩
+
+theorem Sat.withCs {β : Type} {m : P α β} {s : BP α} {Q : β → BP α → Prop} (h : Sat m s Q) (hi : IndA m) :
+    Sat m s (fun r s' => Q r s' ∧ s'.cs = s.cs) := ⟨h, (hi.all s).cs⟩
+
+theorem GE.adv {n n' : Nat} (h : GE (CovQ cs K ts n) ts e s)
+    (hn : ∀ i, n ≤ i → i < n' → ∀ t, ts[i]? = some t → ¬ Wordy cs t) : GE (CovQ cs K ts n') ts e s :=
+  h.mono (fun hi => hi.advance (fun i a b t ht hc => absurd hc (hn i a b t ht)))
+
+/-! ### text blocks -/
+
+theorem textLineK_coverAll (hw : WFI off w ts) (h : GE (CovQ cs K ts s.cur) ts e s) (hcs : s.cs = cs)
+    (k : P α Unit) (Q : Unit → BP α → Prop)
+    (hk : ∀ (s2 : BP α), GE (CovQ cs K ts s2.cur) ts e s2 → s2.cs = cs → s.cur ≤ s2.cur →
+      (s.cur < ts.length → s.cur < s2.cur) → Sat k s2 Q) :
+    Sat (textLineK (α := α) k) s Q := by
+  unfold textLineK
+  refine Sat.bind (currentOffset_sat h.g ?_)
+  refine Sat.bind (Sat.getCur ?_)
+  refine Sat.bind (Sat.mono ((consumeWhile_ge _ h).withCs (consumeWhile_indA _)) ?_)
+  rintro _ s1 ⟨⟨g1, c1, -, -, hend⟩, cs1⟩
+  refine Sat.bind (Sat.mono ((consumeK_ge _ g1).withCs (consumeK_indA _)) ?_)
+  rintro r2 s2 ⟨⟨g2, h2⟩, cs2⟩
+  have hprog : s1.cur ≤ s2.cur ∧ (s.cur < ts.length → s.cur < s2.cur) := by
+    cases r2 with
+    | some nl =>
+      obtain ⟨-, -, c2⟩ := h2
+      exact ⟨by omega, fun _ => by omega⟩
+    | none =>
+      obtain ⟨c2, hk'⟩ := h2
+      refine ⟨by omega, fun hlt => ?_⟩
+      rcases Nat.lt_or_ge s.cur s1.cur with h' | h'
+      · omega
+      · exfalso
+        have e1 : s1.cur = s.cur := by omega
+        have hget : ts[s1.cur]? = some ts[s1.cur] := List.getElem?_eq_getElem (by omega)
+        have := hend _ hget
+        apply hk'
+        rw [hget]
+        simp only [Option.map_some, Option.some.injEq]
+        simpa using this
+  refine Sat.bind (Sat.get ?_)
+  dsimp only
+  have hle : s.cur ≤ s2.cur := by omega
+  have hcs2 : s2.cs = cs := by rw [cs2, cs1, hcs]
+  have hr : RunAt (offAt ts s.cur) ((s2.toks.take s2.cur).drop s.cur) := by
+    rw [g2.g.toks]; exact slice_runAt hw.wf.run hle
+  refine Sat.bind (bpText_sat hr ?_)
+  have hcov : ∀ i, s.cur ≤ i → i < s2.cur → ∀ t, ts[i]? = some t → Wordy cs t →
+      (buildText (offAt ts s.cur) ((s2.toks.take s2.cur).drop s.cur)).isTextEmpty s2.cs = false ∧
+      (buildText (offAt ts s.cur) ((s2.toks.take s2.cur).drop s.cur)).span.start ≤ tokBodyStart t ∧
+      t.stop ≤ (buildText (offAt ts s.cur) ((s2.toks.take s2.cur).drop s.cur)).span.stop := by
+    intro i k1 k2 t ht hct
+    rw [g2.g.toks, hcs2]
+    obtain ⟨-, m2, m3, m4⟩ := textRun_cover hw.wf hle k1 k2 ht hct
+    exact ⟨m2, m3, m4⟩
+  split
+  · refine Sat.bind (Sat.pushEv ?_)
+    refine hk _ (g2.push (g2.evs.pushCover _ ?_)) hcs2 hle hprog.2
+    intro i k1 k2 t ht hct
+    obtain ⟨-, m3, m4⟩ := hcov i k1 k2 t ht hct
+    exact ⟨_, rfl, m3, m4⟩
+  · rename_i hemp
+    refine hk _ (g2.mono (fun hi => hi.advance ?_)) hcs2 hle hprog.2
+    intro i k1 k2 t ht hct
+    exfalso
+    obtain ⟨m2, -, -⟩ := hcov i k1 k2 t ht hct
+    apply hemp
+    rw [m2]; rfl
+
+theorem textBlockLoop_coverAll (hw : WFI off w ts) (fuel : Nat) (h : GE (CovQ cs K ts s.cur) ts e s)
+    (hcs : s.cs = cs) (hf : ts.length - s.cur ≤ fuel) :
+    Sat (textBlockLoop (α := α) fuel) s
+      (fun _ s' => GE (CovQ cs K ts ts.length) ts e s' ∧ s'.cur = ts.length) := by
+  have hle := h.le
+  induction fuel generalizing s with
+  | zero =>
+    unfold textBlockLoop
+    refine Sat.bind (restToks_sat h.g ?_)
+    have : ts.drop s.cur = [] := List.drop_eq_nil_of_le (by omega)
+    rw [this]
+    have e1 : s.cur = ts.length := by omega
+    exact Sat.pure ⟨by rw [← e1]; exact h, e1⟩
+  | succ fuel ih =>
+    unfold textBlockLoop
+    refine Sat.bind (restToks_sat h.g ?_)
+    split
+    · rename_i hemp
+      have := drop_isEmpty_true hemp
+      have e1 : s.cur = ts.length := by omega
+      exact Sat.pure ⟨by rw [← e1]; exact h, e1⟩
+    · rename_i hemp
+      have hlt := drop_isEmpty_false (by simpa using hemp)
+      have tail : ∀ s1 : BP α, GE (CovQ cs K ts s1.cur) ts e s1 → s1.cs = cs → s.cur ≤ s1.cur →
+          Sat (textLineK (α := α) (textBlockLoop fuel)) s1
+            (fun _ s' => GE (CovQ cs K ts ts.length) ts e s' ∧ s'.cur = ts.length) := by
+        intro s1 g1 cs1 c1
+        refine textLineK_coverAll hw g1 cs1 _ _ ?_
+        intro s2 g2 cs2 c2 hp
+        have hle2 := g2.le
+        have hle1 := g1.le
+        refine ih g2 cs2 ?_ g2.le
+        rcases Nat.lt_or_ge s1.cur ts.length with h' | h'
+        · have := hp h'; omega
+        · omega
+      refine Sat.bind (Sat.mono ((consumeK_ge _ h).withCs (consumeK_indA _)) ?_)
+      rintro r1 s1 ⟨⟨g1, h1⟩, cs1⟩
+      cases r1 with
+      | none => exact tail s1 (by rw [h1.1]; exact g1) (by rw [cs1, hcs]) (by omega)
+      | some m =>
+        obtain ⟨hm, hmk, c1⟩ := h1
+        have g1' : GE (CovQ cs K ts s1.cur) ts e s1 := by
+          refine g1.adv ?_
+          intro i k1 k2 t ht hct
+          have : i = s.cur := by omega
+          subst this
+          rw [hm] at ht
+          simp only [Option.some.injEq] at ht
+          subst ht
+          exact hct.2.2.2.2.2 hmk
+        dsimp only
+        refine Sat.bind (Sat.mono ((consumeK_ge _ g1').withCs (consumeK_indA _)) ?_)
+        rintro r2 s2 ⟨⟨g2, h2⟩, cs2⟩
+        cases r2 with
+        | none => exact tail s2 (by rw [h2.1]; exact g2) (by rw [cs2, cs1, hcs]) (by omega)
+        | some w' =>
+          obtain ⟨hw', hwk, c2⟩ := h2
+          refine tail s2 ?_ (by rw [cs2, cs1, hcs]) (by omega)
+          refine g2.adv ?_
+          intro i k1 k2 t ht hct
+          have : i = s1.cur := by omega
+          subst this
+          rw [hw'] at ht
+          simp only [Option.some.injEq] at ht
+          subst ht
+          exact hct.2.2.1 hwk
+
+theorem parseTextBlock_coverAll (hw : WFI off w ts) (h : GE (CovQ cs K ts s.cur) ts e s) (hcs : s.cs = cs) :
+    Sat (parseTextBlock (α := α)) s
+      (fun _ s' => GE (CovQ cs K ts ts.length) ts e s' ∧ s'.cur = ts.length) := by
+  unfold parseTextBlock
+  refine Sat.bind (Sat.pushEv ?_)
+  have g1 : GE (CovQ cs K ts s.cur) ts e { s with evs := s.evs.push (.start .text) } := h.push (h.evs.push _)
+  refine Sat.bind (restToks_sat g1.g ?_)
+  refine Sat.bind (Sat.mono (textBlockLoop_coverAll hw _ g1 hcs (by simp)) ?_)
+  rintro _ s2 ⟨g2, c2⟩
+  exact Sat.pushEv ⟨g2.push (g2.evs.push _), c2⟩
+
 end Cook
